@@ -208,6 +208,12 @@ func (s *Service) OnCommit(ctx context.Context, _ uint64, account string, confir
 	if len(generation.sharedVVecs) != len(generation.participants) {
 		return nil, nil, fmt.Errorf("have %d contributions, need %d, aborting", len(generation.sharedVVecs), len(generation.participants))
 	}
+	// The number of contributions alone does not tell us who contributed; each participant must have done so.
+	for _, participant := range generation.participants {
+		if _, exists := generation.sharedSecrets[participant.ID]; !exists {
+			return nil, nil, fmt.Errorf("no contribution from participant %d, aborting", participant.ID)
+		}
+	}
 
 	privateKey := bls.SecretKey{}
 	for k := range generation.sharedSecrets {
